@@ -49,7 +49,7 @@ TEXT = {
     },
     "C15": {
         "technique": "property-based testing (rapid): generated lines x handler populations that scribble; value and pointer-identity oracle",
-        "level_text": "Generated lines (with/without tags, 0-15 arguments, verbs with and without internal handlers) are delivered to 1-4 foreground and 0-3 background handlers; each records what it received, some overwrite every argument, tag and field at drawn moments, others look again later. Every record must equal the expected parse and no two invocations may share the *Line, the Args backing array or the Tags map.",
+        "level_text": "Generated lines (with/without tags, 0-15 arguments, verbs with and without internal handlers) are delivered to 1-4 foreground and 0-3 background handlers; each records what it received, some overwrite every argument, tag and field at drawn moments, others look again later. Every record must equal the expected parse and no two invocations may share the *Line, the Args backing array or the Tags map. In a third of the scenarios an application Config().Recover callback (installed on the existing client) scribbles over the line it is handed, user handlers panic when done, and short lines make built-in handlers panic.",
         "level_note": "Internal handlers' lines cannot be observed from outside; they are covered indirectly (their edits would show in user handlers if storage were shared).",
     },
     "C16": {
@@ -59,7 +59,7 @@ TEXT = {
     },
     "C18": {
         "technique": "property-based testing (rapid): configuration x session generator; dial-address, registration-prefix and PING/PONG token oracles on the wire",
-        "level_text": "Generated configurations and sessions are run through real Connect cycles against the scripted server: the dialled address (default port 6667/6697 only when absent), the exact registration prefix (CAP LS?, PASS?, NICK current, USER ident 12 * :name), one PONG per server PING carrying the same token for all token shapes (also when the PING arrives behind a full output queue), and client PINGs exactly when PingFreq > 0 (on every connect cycle). Configuration may be changed through Config() between Client() and Connect().",
+        "level_text": "Generated configurations and sessions are run through real Connect cycles against the scripted server: the dialled address (default port 6667/6697 only when absent), the exact registration prefix (CAP LS?, PASS?, NICK current, USER ident 12 * :name), one PONG per server PING carrying the same token for all token shapes (also when the PING arrives behind a full output queue), and client PINGs exactly when PingFreq > 0 (on every connect cycle). Configuration (Server, SSL and Pass together, or SSL alone with Server known from the start) may be changed through Config() between Client() and Connect().",
         "level_note": "Scripted-socket leg: SSL configurations are checked for the dialled address only. Loopback leg: real TCP and TLS sessions without a proxy, default ports 6667/6697 actually reached (skipped, counted, if they cannot be bound). Bracketed IPv6 without a port is outside the generated domain.",
     },
     "C20": {
@@ -94,7 +94,7 @@ TEXT = {
     },
     "C19": {
         "technique": "exhaustive small-scope enumeration of negotiation scripts + property-based testing (rapid) of large capability sets, against a negotiation model",
-        "level_text": "All 9216 combinations of wanted subset x SASL mechanism x advertised subset x server reply x SASL outcome x stray AUTHENTICATE are run as live sessions and compared line by line with a model of the negotiation (REQ as a set, AUTHENTICATE payload per mechanism, CAP END after every terminal step, HasCapability/SupportsCapability at every step); random sets of 20-120 long names force the REQ to be split over several lines.",
+        "level_text": "All 9216 combinations of wanted subset x SASL mechanism x advertised subset x server reply x SASL outcome x stray AUTHENTICATE are run as live sessions and compared line by line with a model of the negotiation (REQ as a set, AUTHENTICATE payload per mechanism, CAP END after every terminal step, HasCapability/SupportsCapability at every step); random sets of 20-120 long names force the REQ to be split over several lines. A sessions leg runs 2-3 negotiations on one client, each with its own wanted set / mechanism (installed through Config() on the existing client), advertised set, reply and outcome, with links that drop before the LS reply, after the request, after AUTHENTICATE <mechanism> or after the SASL data, and a capability the application requests itself through Conn.Cap; the model is per connection. A regression leg replays the histories of the two repaired C19 defects.",
         "level_note": "Exhaustive only over the stated universe {a,b,c,sasl}; multi-line LS (CAP 302) is not generated because the client asks for plain CAP LS.",
     },
     "C10": {
